@@ -30,6 +30,12 @@ def wf(loc):
 
 
 @spec
+def nonempty_parts(loc):
+    """parts non-empty (coordinates may be negative: temporaries of extend_location)"""
+    return all(p.start < p.end for p in loc.parts)
+
+
+@spec
 def share(a, b):
     return a.start < b.end and b.start < a.end
 
@@ -75,17 +81,30 @@ def d_ring(a, b, wrap):
 
 
 # ---- contracts -------------------------------------------------------------------------------------
+@spec
+def raw_pair_overlap(a, b):
+    """what the function computes for two single parts (also for empty or negative temporaries)"""
+    return ((b.start <= a.start and a.start < b.end) or (b.start <= a.end - 1 and a.end - 1 < b.end)
+            or (a.start <= b.start and b.start < a.end) or (a.start <= b.end - 1 and b.end - 1 < a.end))
+
+
+@spec
+def raw_overlap(first, second):
+    return any(raw_pair_overlap(p, q) for p in first.parts for q in second.parts)
+
+
 @contract(f"{FILE}::locations_overlap", props=["C04", "C01", "C03", "C06", "C08"])
 class LocationsOverlap:
+    """total contract (callers pass temporaries with negative or empty parts); for locations with non-empty parts the
+    result is exactly 'the two locations share a base'"""
     params = {"first": LOC, "second": LOC}
 
-    def requires(first, second):
-        return wf(first) and wf(second)
-
-    def ensures(first, second, result):
-        return result == share_bases(first, second)
-
-    functional = share_bases
+    ensures = {
+        "membership-tests-of-the-ends": lambda first, second, result: result == raw_overlap(first, second),
+        "iff-they-share-a-base": lambda first, second, result:
+            implies(nonempty_parts(first) and nonempty_parts(second), result == share_bases(first, second)),
+    }
+    functional = raw_overlap
     returns = Bool
 
 
@@ -534,3 +553,53 @@ def split_valid_parts(parts):
     strand = parts[0].strand
     disjoint_hulls = not (hull_start(head) < hull_end(tail) and hull_start(tail) < hull_end(head))
     return disjoint_hulls and monotone(head, strand) and monotone(tail, strand)
+
+
+# ---- Record.extend_location -----------------------------------------------------------------------------
+RECORD_FILE = "antismash/common/secmet/record.py"
+RECORD = Rec("Record", label="RecordLenCirc", _verif_length=Int, _verif_circular=Bool)
+
+
+@spec
+def record_len(self):
+    return self._verif_length
+
+
+@spec
+def record_is_circular(self):
+    return self._verif_circular
+
+
+RECORD_STUBS = {"Record.__len__": record_len, "Record.is_circular": record_is_circular}
+
+
+@spec
+def within_distance(loc, x, distance, length, circular):
+    """base x lies within `distance` of the (single-part) location, the other way round too on a ring"""
+    lo = loc.start - distance
+    hi = loc.end + distance
+    if circular:
+        return (lo <= x and x < hi) or (lo <= x - length and x - length < hi) or (lo <= x + length and x + length < hi)
+    return lo <= x and x < hi
+
+
+@contract(f"{RECORD_FILE}::Record.extend_location", props=["C04", "C03"])
+class ExtendSimpleLocation:
+    """a single-part location extended by a distance: exactly the bases within the distance, clipped at the ends
+    of a linear record and wrapped around the origin of a circular one; result a well-formed span"""
+    params = {"self": RECORD, "location": FL, "distance": Int}
+    stubs = RECORD_STUBS
+    class_pref = {"Record": RECORD_FILE}
+
+    def requires(self, location, distance):
+        return (wf(location) and distance >= 0 and self._verif_length > 0 and location.end <= self._verif_length)
+
+    ensures = {
+        "covers-exactly-the-bases-within-the-distance": lambda self, location, distance, result:
+            forall(range(0, self._verif_length), lambda x: covers(result, x) == within_distance(
+                location, x, distance, self._verif_length, self._verif_circular)),
+        "well-formed-span": lambda self, location, distance, result:
+            within(result, self._verif_length) and disjoint(result) and len(result.parts) <= 2
+            and implies(len(result.parts) == 2,
+                        (result.parts[0].start == 0) if location.strand == -1 else (result.parts[1].start == 0)),
+    }
